@@ -1,6 +1,7 @@
 import Rbp.Model.Hex
 import Rbp.Model.Script
 import Rbp.Model.Run
+import Rbp.Model.Output
 
 /-! Line-protocol driver of the executable model: `rbp-model <cmd>` answers one line per request line. -/
 open Hex
@@ -117,12 +118,26 @@ def answerReward (toks : List String) : String :=
            if k ≥ 64 then "PANIC" else toString ((5000000000 : Nat) >>> k)
   | _ => "bad-request"
 
+/-- `outfile <cap> <budget|-> <row length>*`: one output file through the BufWriter machine with the repaired program
+    (write rows, explicit flush, rename, drop) -/
+def answerOutfile (toks : List String) : String :=
+  match toks with
+  | cap :: budget :: lens =>
+    let b := if budget == "-" then 1000000000000 else budget.toNat!
+    let chunks := lens.map fun l => List.replicate l.toNat! (0 : UInt8)
+    let s := O.exec (O.init cap.toNat! b) (O.fixedProg chunks)
+    let ws := s.w.log.filter (fun p => p.1 > 0)
+    s!"ok {if s.ok then 1 else 0} renamed {if s.renamed then 1 else 0} disk {s.w.disk.length} writes " ++
+      " ".intercalate (ws.map fun p => s!"{p.1}:{p.2}")
+  | _ => "bad-request"
+
 def answer (cmd : String) (line : String) : String :=
   let toks := (line.trimAscii.toString.splitOn " ").filter (· ≠ "")
   match cmd with
   | "script" => answerScript toks
   | "block" => answerBlock toks
   | "varint" => answerVarint toks
+  | "outfile" => answerOutfile toks
   | "record" => answerRecord toks
   | "blkname" => answerBlkname toks
   | "compactsize" => answerCompact toks
